@@ -43,3 +43,17 @@ pub open spec fn cp_valid(p: CharPartition, cid: ClassId) -> bool {
         ClassId::Complement => exists|x: int| 0 <= x <= MAX_CHAR && !cl_in(p.list@, x),
     }
 }
+
+// the query set lies inside interval i of the list
+pub open spec fn cl_covered_by(l: Seq<CharSet>, set: CharSet, i: int) -> bool {
+    forall|x: int| cs_has(set, x) ==> cs_has(l[i], x)
+}
+
+pub open spec fn cl_covered_by_some(l: Seq<CharSet>, set: CharSet) -> bool {
+    exists|i: int| 0 <= i < l.len() && #[trigger] cl_covered_by(l, set, i)
+}
+
+// the query set meets no interval of the list
+pub open spec fn cl_disjoint_all(l: Seq<CharSet>, set: CharSet) -> bool {
+    forall|x: int| cs_has(set, x) ==> !cl_in(l, x)
+}
